@@ -38,35 +38,75 @@ type scriptConn struct {
 	once    sync.Once
 	writes  [][]byte
 	wsignal chan struct{}
+	rdl     time.Time // read deadline, as set through SetDeadline / SetReadDeadline
+	waited  bool      // the silence before the current chunk has been served
 }
 
 func newScriptConn(chunks [][]byte, pause []time.Duration) *scriptConn {
 	return &scriptConn{chunks: chunks, pause: pause, closed: make(chan struct{}), wsignal: make(chan struct{}, 1024)}
 }
 
+// readWait waits d (the scripted silence before the next chunk) the way a blocked Read on a real
+// connection does: it ends early with a timeout error when a read deadline has been set -- before
+// or during the wait -- and passes.
+func (c *scriptConn) readWait(d time.Duration) error {
+	end := time.Now().Add(d)
+	for {
+		now := time.Now()
+		c.mu.Lock()
+		dl := c.rdl
+		c.mu.Unlock()
+		if !dl.IsZero() && !dl.After(now) {
+			return os.ErrDeadlineExceeded
+		}
+		if !now.Before(end) {
+			return nil
+		}
+		step := end.Sub(now)
+		if step > 2*time.Millisecond {
+			step = 2 * time.Millisecond
+		}
+		if !dl.IsZero() && dl.Sub(now) < step {
+			step = dl.Sub(now)
+		}
+		select {
+		case <-time.After(step):
+		case <-c.closed:
+			return io.EOF
+		}
+	}
+}
+
 func (c *scriptConn) Read(b []byte) (int, error) {
 	c.mu.Lock()
 	if c.idx < len(c.chunks) {
-		ch := c.chunks[c.idx]
 		var p time.Duration
-		if c.idx < len(c.pause) {
+		if c.idx < len(c.pause) && !c.waited {
 			p = c.pause[c.idx]
 		}
+		c.waited = true
+		c.mu.Unlock()
+		if err := c.readWait(p); err != nil {
+			return 0, err
+		}
+		c.mu.Lock()
+		ch := c.chunks[c.idx]
 		if len(ch) > len(b) { // the caller's buffer is smaller than the scripted chunk: split it
 			c.chunks[c.idx] = ch[len(b):]
 			ch = ch[:len(b)]
 		} else {
 			c.idx++
+			c.waited = false
 		}
 		c.mu.Unlock()
-		if p > 0 {
-			time.Sleep(p)
-		}
 		return copy(b, ch), nil
 	}
 	c.mu.Unlock()
-	<-c.closed
-	return 0, io.EOF
+	for { // nothing more to deliver: a blocked Read, ended by Close or by a read deadline
+		if err := c.readWait(50 * time.Millisecond); err != nil {
+			return 0, err
+		}
+	}
 }
 
 func (c *scriptConn) Write(b []byte) (int, error) {
@@ -88,8 +128,13 @@ func (c *scriptConn) Write(b []byte) (int, error) {
 func (c *scriptConn) Close() error                       { c.once.Do(func() { close(c.closed) }); return nil }
 func (c *scriptConn) LocalAddr() net.Addr                { return &net.TCPAddr{} }
 func (c *scriptConn) RemoteAddr() net.Addr               { return &net.TCPAddr{} }
-func (c *scriptConn) SetDeadline(t time.Time) error      { return nil }
-func (c *scriptConn) SetReadDeadline(t time.Time) error  { return nil }
+func (c *scriptConn) SetDeadline(t time.Time) error      { return c.SetReadDeadline(t) }
+func (c *scriptConn) SetReadDeadline(t time.Time) error {
+	c.mu.Lock()
+	c.rdl = t
+	c.mu.Unlock()
+	return nil
+}
 func (c *scriptConn) SetWriteDeadline(t time.Time) error { return nil }
 
 type scriptListener struct {
@@ -524,6 +569,76 @@ func runDefaultHandler(id int, r *rng.R, role string, bufSize int) {
 	emit(rec)
 }
 
+// runQuiet: the connection writes, then the inbound stream stays silent for several write-deadline
+// periods in the middle of a message. Silence on the inbound side is not an error: everything the
+// peer sent must still be delivered (a write must not arm anything that ends the reading).
+func runQuiet(id int, r *rng.R, role string) {
+	n := r.Range(2, 5)
+	var msgs [][]byte
+	var stream []byte
+	for k := 1; k <= n; k++ {
+		m := genMessage(r, 0, k)
+		msgs = append(msgs, m)
+		stream = append(stream, m...)
+	}
+	cut := len(msgs[0]) - r.Range(1, 6) // inside the first message's trailer
+	chunks := [][]byte{stream[:cut], stream[cut:]}
+	wd := 25 * time.Millisecond
+	quiet := 6 * wd
+	sc := newScriptConn(chunks, []time.Duration{0, quiet})
+	outMsg := genMessage(r, 100, 1)
+	var h *recHandler
+	var stop func()
+	if role == "initiator" {
+		h = newRecHandler(context.Background(), 1)
+		ini := simplefixgo.NewInitiator(sc, h, 1, wd)
+		go func() { _ = ini.Serve() }()
+		stop = func() { ini.Close(); h.cancel() }
+	} else {
+		l := &scriptListener{conns: make(chan net.Conn, 1), closed: make(chan struct{})}
+		f := &factory{outBuf: 1}
+		got := make(chan *recHandler, 1)
+		acc := simplefixgo.NewAcceptor(l, f, wd, func(hh simplefixgo.AcceptorHandler) { got <- hh.(*recHandler) })
+		go func() { _ = acc.ListenAndServe() }()
+		l.conns <- sc
+		select {
+		case h = <-got:
+		case <-time.After(2 * time.Second):
+			h = newRecHandler(context.Background(), 1)
+		}
+		stop = func() { acc.Close(); l.Close(); sc.Close() }
+	}
+	select {
+	case h.out <- outMsg:
+	case <-time.After(time.Second):
+	}
+	waitFor(func() bool { h.mu.Lock(); defer h.mu.Unlock(); return len(h.got) >= n }, quiet+3*time.Second)
+	time.Sleep(2 * time.Millisecond)
+	h.mu.Lock()
+	delivered := append([][]byte{}, h.got...)
+	h.mu.Unlock()
+	sc.mu.Lock()
+	nw := len(sc.writes)
+	sc.mu.Unlock()
+	stop()
+	rec := &Rec{ID: id, Mode: "stream-quiet", Case: fmt.Sprintf("%s: one write (deadline %s), then %s of inbound silence inside message 1 of %d", role, wd, quiet, n),
+		Oracle: map[string]string{}, Tags: []string{"quiet-after-write", role}, Size: len(stream), Skip: true}
+	rec.Impl = fmt.Sprintf("delivered=%d writes=%d", len(delivered), nw)
+	verdict := "ok"
+	if len(delivered) != n {
+		verdict = fmt.Sprintf("fail: %d messages delivered, %d sent (inbound silence of %s after a write with deadline %s)", len(delivered), n, quiet, wd)
+	} else {
+		for i := range msgs {
+			if string(delivered[i]) != string(msgs[i]) {
+				verdict = fmt.Sprintf("fail: delivery %d is not message %d as sent", i+1, i+1)
+				break
+			}
+		}
+	}
+	rec.Oracle["C04"] = verdict
+	emit(rec)
+}
+
 func main() {
 	seed := flag.Uint64("seed", 1, "seed")
 	n := flag.Int("n", 100, "number of cases")
@@ -547,6 +662,11 @@ func main() {
 		kind := i % 4
 		if i%25 == 7 {
 			runDefaultHandler(id, r, []string{"initiator", "acceptor"}[(i/25)%2], []int{0, 1, 4}[(i/50)%3])
+			id++
+			continue
+		}
+		if i%25 == 13 {
+			runQuiet(id, r, []string{"initiator", "acceptor"}[(i/25)%2])
 			id++
 			continue
 		}
